@@ -703,13 +703,17 @@ fn gen_op(ctx: &mut Ctx, s: &AnyS, w: usize, atomic: bool) -> String {
             7..=11 => format!("set {} {}", gen_index(ctx, len), gen_val(ctx, bw, w)),
             12..=14 => format!("get {}", gen_index(ctx, len)),
             15 | 16 => {
-                let n = match ctx.rng.below(4) {
+                let n = match ctx.rng.below(5) {
                     0 => len / 2,
                     1 => len.saturating_sub(1 + ctx.rng.usize_below(5)),
                     2 => len + 1 + ctx.rng.usize_below(2 * w / bw.max(1) + 2),
+                    // well beyond the current allocation (new backing words are needed)
+                    3 => len + (5 + ctx.rng.usize_below(4)) * w.div_ceil(bw.max(1)),
                     _ => gen_len(ctx, bw, w),
                 };
-                format!("resize {} {}", n, gen_val(ctx, bw, w))
+                // the fill value 0 is special (freshly allocated words are zero): make it frequent
+                let v = if ctx.rng.chance(1, 3) { 0 } else { gen_val(ctx, bw, w) };
+                format!("resize {} {}", n, v)
             }
             17 => "clear".into(),
             18 => {
@@ -953,6 +957,34 @@ fn directed(ctx: &mut Ctx) {
         }
         for _ in 0..40 {
             copy_case(ctx, wt, w);
+        }
+        // storage beyond len must never be trusted: dirty backends (all-ones garbage in the tail and
+        // in spare words), then growth with the fill values 0 / all-ones within and beyond the allocation
+        for &bw in &[1usize, 3, w / 2 + 1, w - 1, w] {
+            let per = w.div_ceil(bw);
+            let m = omask(bw);
+            let wm = omask(w);
+            for fill in [0u128, m] {
+                ctx.case();
+                let mut s = fresh(wt);
+                exec(ctx, &mut s, &format!("wordtype {} {}", wt, w));
+                exec(ctx, &mut s, &format!("raw {} {} {}", fmt_list([wm, wm, wm, wm].iter()), bw, per / 2 + 1));
+                exec(ctx, &mut s, &format!("resize {} {}", 2 * per, fill));
+                exec(ctx, &mut s, "iter");
+                exec(ctx, &mut s, &format!("resize {} {}", 1, fill));
+                exec(ctx, &mut s, &format!("resize {} {}", 9 * per + 1, fill));
+                exec(ctx, &mut s, "iter");
+                exec(ctx, &mut s, "rev_iter");
+                exec(ctx, &mut s, "clear");
+                exec(ctx, &mut s, &format!("resize {} {}", 12 * per, fill));
+                exec(ctx, &mut s, "iter");
+                for v in [m, 0, m] {
+                    exec(ctx, &mut s, &format!("push {}", v));
+                }
+                exec(ctx, &mut s, "pop");
+                exec(ctx, &mut s, "iter");
+                ctx.shape(format!("directed-dirty-grow:{}:{}:{}", wt, bw, fill == 0));
+            }
         }
     }
 }
